@@ -274,13 +274,15 @@ def inFragment (inputs : List String) (defs : List (String × BExp)) (rets : Lis
       overInputs inputs e && treeLike e && rets.all (· == r)
   | _ => false
 
-/-- **C02 on the tree-like single-definition fragment** (final uncomputation off): every successful
-run of the compiler model – for every admissible sequence of ancilla choices – is `Correct`: on
-every classical input the qubit mapped to the return name ends with the value of its expression. -/
+/-- **C02 on the tree-like single-definition fragment**, final uncomputation off (`unc = false`) or
+on: every successful run of the compiler model – for every admissible sequence of ancilla choices –
+is `Correct`: on every classical input the qubit mapped to the return name ends with the value of
+its expression.  (With `unc = true` the final `uncompute_all` replays no gate whose target is the
+kept return qubit; that the other qubits come back to zero is C03's matter and not claimed here.) -/
 theorem C02_fragment_partial (inputs : List String) (defs : List (String × BExp)) (rets : List String)
-    (choices : List Nat) (s : CState)
+    (unc : Bool) (choices : List Nat) (s : CState)
     (hf : inFragment inputs defs rets = true)
-    (h : (compile inputs defs (some rets) false).run { choices := choices } = .ok ((), s)) :
+    (h : (compile inputs defs (some rets) unc).run { choices := choices } = .ok ((), s)) :
     Correct s.qc.gates.toList s.qc.numQubits s.qc.qmap inputs defs rets := by
   match defs, hf, h with
   | [(r, e)], hf, h =>
@@ -290,7 +292,7 @@ theorem C02_fragment_partial (inputs : List String) (defs : List (String × BExp
     intro x hx r' hr'
     have hr : r' = r := hrets r' hr'
     subst hr
-    obtain ⟨q, hq, hv⟩ := compile_single_sem h hnd (fun n hn => hfr n hn) hov htl x hx
+    obtain ⟨q, hq, hv⟩ := compile_single_sem h (fun _ => hr') hnd (fun n hn => hfr n hn) hov htl x hx
     refine ⟨q, hq, ?_⟩
     rw [hv]
     simp [evalDefs, envOf]
@@ -335,6 +337,19 @@ example : inFragment ["a", "b", "c"]
   cases hrun : (compile ["a", "b", "c"]
       [("_ret", .xor [.not (.sym "a"), .sym "b", .not (.xor [.sym "c", .not (.sym "b")])])]
       (some ["_ret"]) false).run { choices := [3, 4] } with
+  | ok p => exact ⟨p.2, rfl⟩
+  | error e => rw [hrun] at h; cases h
+
+/-- the same program, final uncomputation on -/
+example : ∃ s, (compile ["a", "b", "c"]
+      [("_ret", .xor [.not (.sym "a"), .sym "b", .not (.xor [.sym "c", .not (.sym "b")])])]
+      (some ["_ret"]) true).run { choices := [3, 4] } = .ok ((), s) := by
+  have h : ((compile ["a", "b", "c"]
+      [("_ret", .xor [.not (.sym "a"), .sym "b", .not (.xor [.sym "c", .not (.sym "b")])])]
+      (some ["_ret"]) true).run { choices := [3, 4] }).toBool = true := by decide +kernel
+  cases hrun : (compile ["a", "b", "c"]
+      [("_ret", .xor [.not (.sym "a"), .sym "b", .not (.xor [.sym "c", .not (.sym "b")])])]
+      (some ["_ret"]) true).run { choices := [3, 4] } with
   | ok p => exact ⟨p.2, rfl⟩
   | error e => rw [hrun] at h; cases h
 
